@@ -188,6 +188,8 @@ func Marshal(data any, args ...any) (out []byte, err error) {
 		wr, _ = marshalPool.Get().(*Writer)
 		defer marshalPool.Put(wr)
 	} else {
+		// strict is a property of this call, not of the caller's Writer.
+		defer func(orig bool) { wr.strict = orig }(wr.strict)
 		wr.strict = true
 	}
 	defer func() {
